@@ -62,7 +62,10 @@ func detModel() *model.Schema {
 		{Kind: model.KIface, Name: "Ia", Fields: []*model.FieldDef{f("ia", "String"), f("ib", "Int"), f("ic", "String"), f("id", "String")}},
 		obj("Ta", "Ia"), obj("Tb", "Ia"), obj("Tc", "Ia"), obj("Td", "Ia"), obj("Te", "Ia"),
 		{Kind: model.KUnion, Name: "Ua", Members: []string{"Ta", "Tb", "Tc", "Td"}, HasResolveType: true},
-		{Kind: model.KObject, Name: "Q", Fields: append([]*model.FieldDef{f("ia", "Ia"), f("ua", "Ua"), f("la", "[Ia]"), f("ta", "Ta"), f("tb", "Tb"),
+		// no type resolver, members not in name order: with isTypeOf answering true for every value
+		// (LooseTypeOf) the first member asked wins, so the order of asking shows in the response
+		{Kind: model.KUnion, Name: "Ub", Members: []string{"Td", "Tb", "Ta"}},
+		{Kind: model.KObject, Name: "Q", Fields: append([]*model.FieldDef{f("ia", "Ia"), f("ua", "Ua"), f("ub", "Ub"), f("lb", "[Ub]"), f("la", "[Ia]"), f("ta", "Ta"), f("tb", "Tb"),
 			f("na", "String", arg("x", "Na"), arg("y", "Nb"), arg("z", "Ea")), f("t1", "String"), f("t2", "String"), f("t3", "String"), f("t4", "String"), f("t5", "String")}, many...)},
 	}}
 }
@@ -81,29 +84,24 @@ var detRequests = []string{
 	`{ __type(name: "Q") { fields { name args { name type { name } } } } }`,
 	// plain valid requests
 	`{ fa fb fc ta { ia ib } ua { ... on Ta { ia } ... on Tb { ib } } }`, `{ na(x: {pa:1, pb:2, pc:3, pd:4, pe: VA, pf: [1,2]}, z: VB) }`,
+	// the order in which possible types are asked, before and after they were listed
+	`{ ub { __typename ... on Ta { ia } ... on Td { ib } } lb { __typename } ia { __typename } }`, `{ __type(name: "Ub") { possibleTypes { name } } a: __type(name: "Ia") { possibleTypes { name } } }`,
 	// several rules at once
 	`query A { fx ...F } query A { fy } fragment F on Q { ...F ta } fragment G on Zz { a }`,
 }
 
 var detVars = []map[string]interface{}{nil, {"v": map[string]interface{}{"pa": "a", "pb": "b", "pc": "c", "za": 1, "zb": 2}}, {"v": map[string]interface{}{}}}
 
-var (
-	detOnce  sync.Once
-	detBuilt *build.Built
-	detErr   error
-)
-
+// detSchema builds a fresh instance per case: a request served for an earlier case must not be
+// able to hide what an interleaved request does to shared schema state.
 func detSchema() (*build.Built, error) {
-	detOnce.Do(func() {
-		m := detModel()
-		w := &ref.World{S: m, Salt: 3, Outcomes: map[string]ref.Outcome{
-			"t1": {Kind: "thunk_err"}, "t2": {Kind: "thunk_err"}, "t3": {Kind: "err"}, "t4": {Kind: "thunk_err"}, "t5": {Kind: "thunk_err"},
-			"ta/ic": {Kind: "thunk_err"}, "ta/id": {Kind: "thunk_err"}, "tb/ic": {Kind: "thunk_err"}, "tb/id": {Kind: "err"},
-			"la/0/ic": {Kind: "thunk_err"}, "la/1/ic": {Kind: "thunk_err"}, "la/0/id": {Kind: "thunk_err"}, "la/2/id": {Kind: "err"},
-		}}
-		detBuilt, detErr = build.New(m, w, build.Options{})
-	})
-	return detBuilt, detErr
+	m := detModel()
+	w := &ref.World{S: m, Salt: 3, LooseTypeOf: true, Outcomes: map[string]ref.Outcome{
+		"t1": {Kind: "thunk_err"}, "t2": {Kind: "thunk_err"}, "t3": {Kind: "err"}, "t4": {Kind: "thunk_err"}, "t5": {Kind: "thunk_err"},
+		"ta/ic": {Kind: "thunk_err"}, "ta/id": {Kind: "thunk_err"}, "tb/ic": {Kind: "thunk_err"}, "tb/id": {Kind: "err"},
+		"la/0/ic": {Kind: "thunk_err"}, "la/1/ic": {Kind: "thunk_err"}, "la/0/id": {Kind: "thunk_err"}, "la/2/id": {Kind: "err"},
+	}}
+	return build.New(m, w, build.Options{})
 }
 
 func respJSON(res *graphql.Result) string {
@@ -331,8 +329,10 @@ func TestC12_Gen(t *testing.T) {
 		text := model.Print(ec.Doc, ec.Layout).Text
 		c := &DetCase{Schema: ec.Schema, World: ec.World, Text: text, OpName: ec.OpName, Vars: ec.Vars, AltVars: ec.AltVars, Cache: gen.Chance(rt, 50, "cache")}
 		if gen.Chance(rt, 50, "others") {
-			c.Others = []string{`{ __typename }`, `{ nope }`}
+			c.Others = []string{`{ __typename }`, `{ nope }`,
+				`{ __schema { types { name possibleTypes { name } interfaces { name } fields { name args { name } } enumValues { name } inputFields { name } } directives { name args { name } } } }`}
 		}
+		ec.World.LooseTypeOf = gen.Chance(rt, 30, "looseTypeOf")
 		msg, multi := c12Oracle(c)
 		stats.R.Class("generated_request")
 		stats.R.Case(caseKey(c), multi, func() interface{} { return c.Text })
